@@ -24,14 +24,19 @@ RESERVED = {"per", "to", "in", "mod", "and", "or", "xor", "of", "for", "now", "a
 SI_LONG = ["milli", "micro", "nano", "pico", "femto", "atto", "zepto", "yocto", "kilo", "mega", "giga", "tera", "peta", "exa", "zetta", "yotta"]
 
 LENGTH = (["1 m", "5 mile", "3.3 inch", "1|3 yard", "-2 km", "1e-7 m"],
-          ["ft", "3 ft", "1|8 inch", "1000 km", "-meter", "12 inch / 5", "cm", "2.5 mm", "hex ft", "digits 20 ft", "base 7 inch", "sci ft", "frac inch"])
+          ["ft", "3 ft", "1|8 inch", "1000 km", "-meter", "12 inch / 5", "cm", "2.5 mm", "hex ft", "digits 20 ft", "base 7 inch", "sci ft", "frac inch",
+           "3 ft + 2 ft", "1 m - 10 cm", "2 (ft + inch)", "-(3 ft)", "2 ft 3", "3 ft mod 2 ft", "7.5 inch mod 2 inch"])
 ENERGY = (["1 kWh", "1 J", "3 cal", "1e-3 btu"], ["kJ", "3 btu", "1|2 erg", "W hour", "kg m^2 / s^2", "N m", "eV", "milliCalorie"])
 AREA = (["1/mpg", "20|3 / mpg"], ["L / 100km", "liter / 100 kilometer", "m^2", "1|1000 mm^2"])
+VOLUME = (["1 m^3", "2 liter", "1|3 gallon", "-5 cm^3"],
+          ["(2 ft)^3", "2 ft^3", "2^3 ft^3", "(3 cm)^3", "liter", "(1|2 inch)^3", "(2 ft)^2 m", "3 (2 inch)^3", "(2 ft)^3 / 5"])
+RECIP = (["1 m^-2", "5 / acre", "1 / (3 ft^2)"], ["(2 ft)^-2", "1 / (10 m)^2", "ft^-2", "1|4 / (ft inch)", "(2 ft)^-1 / (3 m)"])
 SPEED = (["60 mph", "1 c", "3 knot"], ["km / hour", "m/s", "10 ft / min", "mile / 2 hour"])
 INFO = (["1 kB", "3 GiB", "12 bit"], ["byte", "kibibyte", "8 bit", "1|1024 MiB", "milliKB"])
 MASS = (["1 lb", "2.5 tonne", "1e9 g", "3 oz"], ["kg", "gram", "3 stone", "1|16 lb", "tonne"])
 TIME = (["1 day", "1e6 s", "90 min"], ["hour", "7 day", "1|60 min", "ms"])
 ANGLE = (["1 radian", "12.3456 degree"], ["arcsec", "millimass", "mas", "2 turn"])
+BITS = (["6", "255", "1|3"], ["5 and 3", "5 or 3", "5 xor 3", "12 mod 5", "2", "1|8"])
 PLAIN = (["3 ft", "5000 m", "10 km", "2 byte", "1 kg", "1|3 N", "1e10 W", "0.002 A", "7 kg^2", "123456789", "1|7", "2.5 tonne", "12 bit", "5e-5 farad"],
          ["hex", "base 10", "digits 3", "digits 3 hex", "sci", "eng", "frac", "bin", "oct", "base 36", "digits", "digits 40 base 3"])
 LISTS = [(["1.7 m", "100 inch", "5280.5 ft", "-3.25 yard", "1e-4 mile"], ["ft;inch", "mile;yard;ft;inch", "m;cm;mm", "yard;ft"]),
@@ -340,7 +345,7 @@ def run(tier, seed):
     run = vlib.Run(PROP, tier, seed, "model_checking")
     thorough = tier == "thorough"
     run.cov["rule"] = ("TLC (MC_PartsGen) enumerates queries from the registry dump: units x (m * 10^(3j))^k <unit>^k over every SI prefix value, "
-                       "m in {0.999, 1, 1000}, both signs, k in 1..3 (base units and regroupable derived units: the full grid; sampled units: a "
+                       "m in {0.999, 1, 1000}, both signs, k in 1..3 (base units and regroupable derived units: the full grid, also k = -1, -2; sampled units: a "
                        "seed-rotated stride of it); products of <= 4 base units with exponents -2..2; source -> target pairs (constants in the "
                        "target, base / digits forms, unit lists, prefix+name self-conversions); definitions; durations; substances. non-trivial = distinct "
                        "query text with a numeric reply that the judge could decide.")
@@ -364,7 +369,7 @@ def run(tier, seed):
     js = list(range(-8, 9))
 
     # G1: prefix-boundary grid
-    g1, r1 = gen("grid1", "grid", seed, units=special, ms=["0.999", "1", "1000"], signs=["", "-"], ks=[1, 2, 3], js=js, stride=1)
+    g1, r1 = gen("grid1", "grid", seed, units=special, ms=["0.999", "1", "1000"], signs=["", "-"], ks=[-2, -1, 1, 2, 3], js=js, stride=1)
     run.add_tlc(r1, "MC_PartsGen grid (base + derived units)")
     g2, r2 = gen("grid2", "grid", seed, units=sample, ms=["0.999", "1", "1000"], signs=["", "-"], ks=[1, 2, 3], js=js, stride=3 if thorough else 12)
     run.add_tlc(r2, "MC_PartsGen grid (sampled units)")
@@ -387,7 +392,7 @@ def run(tier, seed):
 
     # G3: conversions (constants in the target, bases, digits), unit lists: source x target pairs
     jobs = []
-    for k, (srcs, tgts) in enumerate([LENGTH, ENERGY, AREA, SPEED, INFO, MASS, TIME, ANGLE, PLAIN] + LISTS):
+    for k, (srcs, tgts) in enumerate([LENGTH, ENERGY, AREA, VOLUME, RECIP, SPEED, INFO, MASS, TIME, ANGLE, BITS, PLAIN] + LISTS):
         cs, r = gen("cross%d" % k, "cross", seed, srcs=srcs, tgts=tgts)
         run.add_tlc(r, None)
         for c in cs:
